@@ -76,7 +76,9 @@ def emission_items():
                  "memory": {"min": 1, "max": 1, "shared": True},
                  # cells: the one at base + off holds 5 + off, the one at the bare base (when off # 0) holds 5
                  "data": [{"mode": "active", "offset": ["i32.const", b32(64)], "bytes": [5, 0, 0, 0, 0, 0, 0, 0]}] +
-                         ([{"mode": "active", "offset": ["i32.const", b32(64 + off)], "bytes": list((5 + off).to_bytes(8, "little"))}] if off else []),
+                         ([{"mode": "active", "offset": ["i32.const", b32(64 + off)], "bytes": list((5 + off).to_bytes(8, "little"))}] if off else []) +
+                         # a cell whose low word equals the expected value while its high word does not: wait64 must see the difference
+                         [{"mode": "active", "offset": ["i32.const", b32(80 + off)], "bytes": [5, 0, 0, 0, 9, 0, 0, 0]}],
                  "exports": [{"name": "w", "kind": "func", "idx": 0}, {"name": "n", "kind": "func", "idx": 1},
                              {"name": "memory", "kind": "memory", "idx": 0}]}
             call = lambda e, a, b: {"op": "call", "inst": 1, "export": e, "args": [{"t": "i32", "b": b32(a)}, {"t": "i32", "b": b32(b)}]}
@@ -85,6 +87,7 @@ def emission_items():
                                      call("w", 64, 5 + off),          # equal at the effective address: times out (2)
                                      call("w", 64, 5),                # the value at the bare address: 1 unless off = 0
                                      call("w", 64, 0), call("w", 64, off), call("w", 64, 5 + 2 * off), call("w", 64 - off if off <= 64 else 64, 5),
+                                     call("w", 80, 5), call("w", 80, 9),
                                      call("n", 64, 3), call("n", 64, 0)]})
     return items
 
